@@ -680,7 +680,10 @@ def r1_8(ctx, rc):
 
 
 def r1_9(ctx, rc):
-    apply_rules(ctx, rc)
+    # includes the apply rules; and the directory bookkeeping is seeded with
+    # the previous build's directories, files and the cache file (R12.6)
+    from .c12 import r12_6
+    r12_6(ctx, rc)
 
 
 def r1_10(ctx, rc):
